@@ -14,7 +14,8 @@ Section Mon.
   Definition vst (v : view) (n : nat) : ns := nth n (v_nodes v) ns0.
   Definition all_nodes : list nat := seq 0 (length p).
   Definition kind_of (n : nat) : kind := n_kind (nd p n).
-  Definition is_alarm (n : nat) : bool := match kind_of n with KAlarm => true | _ => false end.
+  (* a scope whose body may run repeatedly: an Alarm (re-arms) or a Macro definition (called again) *)
+  Definition is_alarm (n : nat) : bool := match kind_of n with KAlarm | KMacro _ => true | _ => false end.
   Definition is_blank (n : nat) : bool := match kind_of n with KBlank _ => true | _ => false end.
   Definition is_cond (n : nat) : bool := match kind_of n with KAlarm | KWatch => true | _ => false end.
   Definition under_alarm (m : nat) : bool :=
